@@ -14,7 +14,8 @@ from vf import env  # noqa
 FAMILIES = ["random", "newest-unrecoverable", "two-recoverable", "evidence-then-more", "random", "replay",
             "down", "all-newest", "newest-unrecoverable", "evidence-then-more", "two-recoverable", "random",
             "all-oldest", "replay", "evidence-then-more", "update-vs-newer", "held-modify", "update-vs-newer",
-            "held-modify", "thin-newest-flaky", "newest-unrecoverable", "thin-newest-flaky"]
+            "held-modify", "thin-newest-flaky", "newest-unrecoverable", "thin-newest-flaky", "newer-dup-copies",
+            "newer-dup-copies"]
 
 
 def run(ck):
@@ -58,7 +59,9 @@ def run(ck):
                      "read-returned-newest", "publish-ok", "exact-schedule", "free-schedule",
                      "server-answered-from-older-snapshot", "update-ok",
                      "held-version-still-recoverable-next-to-a-newer-one", "held-modify-result-derives-from-newest",
-                     "repair-publish-judged", "repair-forced-ok", "retried-read-judged-on-its-last-survey")
+                     "repair-publish-judged", "repair-forced-ok", "retried-read-judged-on-its-last-survey",
+                     "download-version-of-unrecoverable-version-refused",
+                     "read-with-k-copies-of-fewer-than-k-share-numbers-of-a-newer-version")
 
 
 def gen_params(rng):
@@ -173,8 +176,32 @@ class History(object):
             fam = rng.choice(["all-newest", "all-newest", "random", "two-recoverable"]) if h > 1 else "all-newest"
         if fam == "update-vs-newer" and h == 1:
             fam = "all-newest"
+        if fam == "newer-dup-copies" and (h == 1 or k < 2):
+            fam = "newest-unrecoverable" if h > 1 else "all-newest"
         if fam == "thin-newest-flaky":
             pass
+        elif fam == "newer-dup-copies":
+            # the newest version below k DISTINCT share numbers but with k or more share files (second copies of its
+            # share numbers on other servers); an older version recoverable
+            rng.shuffle(holders)
+            new_on = []
+            for idx in holders:
+                if len(shares_of(new_on + [idx])) < k:
+                    new_on.append(idx)
+            old = rng.randrange(newest)
+            for idx in holders:
+                states[idx] = ("v", newest) if idx in new_on else ("v", old)
+            have = [(idx, sh) for idx in new_on for sh in self.snaps[newest].get(idx, {})]
+            copies, tries = len(have), 0
+            want = rng.choice([k, k + 1])
+            while have and copies < want and tries < 40:
+                tries += 1
+                owner, sh = rng.choice(have)
+                cands = [vs.index for vs in self.g.servers if vs.index not in new_on and (vs.index, sh) not in self.extras
+                         and sh not in self.snaps[-1].get(vs.index, {})]
+                if cands:
+                    self.extras[(rng.choice(cands), sh)] = (newest, owner)
+                    copies += 1
         elif fam == "update-vs-newer":
             # an older recoverable version, the newest one below k distinct shares, and -- so that an in-place update
             # of the older version has something to patch for every share number it will write -- a copy of the older
@@ -325,7 +352,7 @@ class History(object):
         states = self.compose(fam)
         g.sched.settle()          # nothing of an earlier operation may still be in flight
         self.install(states)
-        exact = rng.random() < .75 or fam0 in ("update-vs-newer", "held-modify", "thin-newest-flaky")
+        exact = rng.random() < .75 or fam0 in ("update-vs-newer", "held-modify", "thin-newest-flaky", "newer-dup-copies")
         if exact:
             g.sched.chooser = M.ev_first_chooser(self.sched_rng)
             ck.hit("exact-schedule")
@@ -341,6 +368,8 @@ class History(object):
             ops = ["held-modify"]
         elif fam0 == "thin-newest-flaky":
             ops = ["dbv"]
+        elif fam0 == "newer-dup-copies":
+            ops = rng.choice([["read2", "dbv"], ["read2"], ["dbv", "read2"]])
         elif fam0 == "newest-unrecoverable" and rng.random() < .5:
             ops = [rng.choice(["read2", "dbv"]), rng.choice(["repair-forced", "repair-forced", "repair", "car"])]
         elif rng.random() < .12:
@@ -410,6 +439,19 @@ class History(object):
             t_done = env.reactor.seconds()
             recs = self.survey_records(n0, t_done)
             queried = set(r["server"] for r in g.calls[n0:] if r["method"] == "slot_readv")
+            # asking for a version the map knows but cannot recover must give that version's content or fail
+            for u in sorted(smap.unrecoverable_versions())[:1]:
+                ck.mon("download-version-returns-the-requested-version")
+                stu, du = g.wait(node.download_version(smap, u), horizon=4 * 3600.0)
+                if stu == "ok":
+                    ju = self.content_version(du, wrote)
+                    sequ = None if ju is None else (wrote[0] if ju == "new" else self.vid[ju][0])
+                    if sequ != u[0]:
+                        ck.violation("download-version-returned-another-versions-content",
+                                     "download_version(servermap, <seqnum %d, unrecoverable in that map>) succeeded with the "
+                                     "content of seqnum %r" % (u[0], sequ), dict(desc, op=op, requested=u[0], got=sequ))
+                else:
+                    ck.hit("download-version-of-unrecoverable-version-refused")
             best = smap.best_recoverable_version()
             if best is not None:
                 st, data = g.wait(node.download_version(smap, best), horizon=4 * 3600.0)
@@ -515,6 +557,8 @@ class History(object):
                         why = None
                         break
         loc_all = M.locate(recs)
+        if any(len(e["shnums"]) < e["k"] <= len(e["holders"]) for e in loc_all.values()):
+            ck.hit("read-with-k-copies-of-fewer-than-k-share-numbers-of-a-newer-version")
         if len([v for v, e in loc_all.items() if len(e["shnums"]) >= e["k"]]) >= 2:
             ck.hit("read-with-two-recoverable-versions")
         if newer and seq_returned is not None and why is None:
